@@ -21,6 +21,7 @@ import (
 	"github.com/bronlabs/bron-crypto/pkg/mpc/redistribute"
 	"github.com/bronlabs/bron-crypto/pkg/mpc/session"
 	"github.com/bronlabs/bron-crypto/pkg/mpc/sharing/accessstructures"
+	"github.com/bronlabs/bron-crypto/pkg/mpc/sharing/accessstructures/unanimity"
 	"github.com/bronlabs/bron-crypto/pkg/mpc/signatures/ecdsa/dkls23"
 	"github.com/bronlabs/bron-crypto/pkg/mpc/signatures/schnorr/lindell22"
 	l22signing "github.com/bronlabs/bron-crypto/pkg/mpc/signatures/schnorr/lindell22/signing"
@@ -144,15 +145,21 @@ func c04ScnDKG(proto, cfg, spec string, quick int) c04Scn {
 		} else {
 			res = runCanetti(cK256, ac, ctxs, rngs, hook)
 		}
-		return &c04Res{net: res.Net, agg: "-", out: c04ShardsOut(res.Net, res.Shards, ids, nil)}
+		return &c04Res{net: res.Net, agg: "-", out: c04ShardsOut(res.Net, res.Released, ids, nil)}
 	}}
 }
 
 func c04ScnHJKY(cfg, spec string, quick int) c04Scn {
-	return c04Scn{proto: "hjky", cfg: cfg, quick: quick, run: func(seed int64, base uint64, hook Hook) *c04Res {
+	scn := c04Scn{proto: "hjky", cfg: cfg, quick: quick, cohDevs: accessIDs(mustAccess(spec)), cohDevsAll: accessIDs(mustAccess(spec))}
+	scn.run = func(seed int64, base uint64, hook Hook) *c04Res { return scn.runWith(seed, base, hook, nil) }
+	scn.runCoh = func(seed int64, base uint64, coh *c04Coh) *c04Res { return scn.runWith(seed, base, nil, coh) }
+	scn.runWith = func(seed int64, base uint64, hook Hook, coh *c04Coh) *c04Res {
 		ac := mustAccess(spec)
 		ids := accessIDs(ac)
 		ctxs := dealerContexts(ids, NewRng(seed, base+1))
+		if coh.is("nonzero") {
+			hook = c04NonzeroHook(coh, ac, seed, base)
+		}
 		res := runHJKY(cK256, ac, ctxs, partyRngs(seed, base+10, ids), hook)
 		n := res.Net
 		return &c04Res{net: n, agg: "-", out: func(dev ID) string {
@@ -206,7 +213,8 @@ func c04ScnHJKY(cfg, spec string, quick int) c04Scn {
 				return "valid"
 			})
 		}}
-	}}
+	}
+	return scn
 }
 
 // c04ScnRedistribute: prevSpec's key (trusted dealer) held by prevHolders is re-shared under nextSpec.
@@ -219,8 +227,11 @@ func c04ScnRedistribute(cfg, prevSpec string, prevHolders []ID, nextSpec string,
 		}
 		return "redistribute-newcomer"
 	}
-	return c04Scn{proto: "redistribute", cfg: cfg, quick: quick, label: label, run: func(seed int64, base uint64, hook Hook) *c04Res {
-		_, prev := c04Dealer(prevSpec, seed, base+2)
+	scn := c04Scn{proto: "redistribute", cfg: cfg, quick: quick, label: label, trusted: anchor}
+	scn.run = func(seed int64, base uint64, hook Hook) *c04Res { return scn.runWith(seed, base, hook, nil) }
+	scn.runCoh = func(seed int64, base uint64, coh *c04Coh) *c04Res { return scn.runWith(seed, base, nil, coh) }
+	scn.runWith = func(seed int64, base uint64, hook Hook, coh *c04Coh) *c04Res {
+		prevAC, prev := c04Dealer(prevSpec, seed, base+2)
 		next := mustAccess(nextSpec)
 		all := sortedIDs(idSet(append(append([]ID{}, prevHolders...), accessIDs(next)...)...).List())
 		ctxs := dealerContexts(all, NewRng(seed, base+1))
@@ -228,13 +239,34 @@ func c04ScnRedistribute(cfg, prevSpec string, prevHolders []ID, nextSpec string,
 		for _, id := range prevHolders {
 			held[id] = prev[id]
 		}
+		// coherent deviations: the deviator's shard, its zero sharing (among the previous holders) or its round 2
+		held = c04SubstInput(cK256, fK256, prevAC, held, coh, seed, base)
+		switch {
+		case coh.is("nonzero"):
+			zeroAC, err := unanimity.NewUnanimityAccessStructure(idSet(prevHolders...))
+			if err != nil {
+				panic(err)
+			}
+			hook = c04NonzeroHook(coh, zeroAC, seed, base)
+		case coh.is("redeal", "claim", "redeal+claim"):
+			hook = c04RedistributeHook(coh, prevAC, next, seed, base)
+		}
 		var opts []redistribute.Option
 		if anchor != 0 {
 			opts = append(opts, redistribute.WithTrustedAnchorID(anchor))
 		}
 		res := runRedistribute(prevHolders, held, next, ctxs, partyRngs(seed, base+10, all), hook, opts...)
-		return &c04Res{net: res.Net, agg: "-", out: c04ShardsOut(res.Net, res.Shards, accessIDs(next), prev[prevHolders[0]].PublicKeyValue())}
-	}}
+		// the ORIGINAL public key (the dealer's), whatever the deviator's shard says
+		return &c04Res{net: res.Net, agg: "-", out: c04ShardsOut(res.Net, res.Released, accessIDs(next), prev[prevHolders[0]].PublicKeyValue())}
+	}
+	// every previous holder but the trusted anchor may deviate
+	for _, id := range sortedIDs(prevHolders) {
+		if id != anchor {
+			scn.cohDevs = append(scn.cohDevs, id)
+		}
+	}
+	scn.cohDevsAll = sortedIDs(prevHolders)
+	return scn
 }
 
 func c04ECDSAValid(suite *ecdsa.Suite[*k256Point, *k256Base, *k256Scalar], pkv *k256Point, sig *ecdsa.Signature[*k256Scalar], msg []byte) string {
@@ -272,8 +304,13 @@ func c04ScnDKLs23(variant, cfg, spec string, quorum []ID, quick, cap int) c04Scn
 	if variant == "bbot" {
 		aggRound = 4
 	}
-	return c04Scn{proto: "dkls23-" + variant, cfg: cfg, quick: quick, cap: cap, run: func(seed int64, base uint64, hook Hook) *c04Res {
-		_, shards := c04Dealer(spec, seed, base+2)
+	scn := c04Scn{proto: "dkls23-" + variant, cfg: cfg, quick: quick, cap: cap, cohDevs: sortedIDs(quorum), cohDevsAll: sortedIDs(quorum)}
+	scn.run = func(seed int64, base uint64, hook Hook) *c04Res { return scn.runWith(seed, base, hook, nil) }
+	scn.runCoh = func(seed int64, base uint64, coh *c04Coh) *c04Res { return scn.runWith(seed, base, nil, coh) }
+	scn.runWith = func(seed int64, base uint64, hook Hook, coh *c04Coh) *c04Res {
+		ac, orig := c04Dealer(spec, seed, base+2)
+		origPK := orig[sortedIDs(quorum)[0]].PublicKeyValue()
+		shards := c04SubstInput(cK256, fK256, ac, orig, coh, seed, base)
 		suite, err := ecdsa.NewSuite(cK256, sha256.New)
 		if err != nil {
 			panic(err)
@@ -300,7 +337,7 @@ func c04ScnDKLs23(variant, cfg, spec string, quorum []ID, quick, cap int) c04Scn
 				ps = append(ps, m)
 			}
 			agg = safely(func() string {
-				pk, err := ecdsa.NewPublicKey(res.PK)
+				pk, err := ecdsa.NewPublicKey(origPK) // the ORIGINAL public key, not the one a cosigner's shard reports
 				if err != nil {
 					return classify(err)
 				}
@@ -319,14 +356,26 @@ func c04ScnDKLs23(variant, cfg, spec string, quorum []ID, quick, cap int) c04Scn
 			if sig == nil {
 				return "none"
 			}
-			return c04ECDSAValid(suite, res.PK, sig, msg)
+			return c04ECDSAValid(suite, origPK, sig, msg)
 		}}
-	}}
+	}
+	return scn
 }
 
 func c04ScnLindell22(cfg, spec string, quorum []ID, quick int) c04Scn {
-	return c04Scn{proto: "lindell22", cfg: cfg, quick: quick, run: func(seed int64, base uint64, hook Hook) *c04Res {
-		_, shards := c04Dealer(spec, seed, base+2)
+	scn := c04Scn{proto: "lindell22", cfg: cfg, quick: quick, cohDevs: sortedIDs(quorum), cohDevsAll: sortedIDs(quorum)}
+	scn.run = func(seed int64, base uint64, hook Hook) *c04Res { return scn.runWith(seed, base, hook, nil) }
+	scn.runCoh = func(seed int64, base uint64, coh *c04Coh) *c04Res { return scn.runWith(seed, base, nil, coh) }
+	scn.runWith = func(seed int64, base uint64, hook Hook, coh *c04Coh) *c04Res {
+		ac, orig := c04Dealer(spec, seed, base+2)
+		shards := c04SubstInput(cK256, fK256, ac, orig, coh, seed, base)
+		if coh.is("nonzero") {
+			zeroAC, err := unanimity.NewUnanimityAccessStructure(idSet(quorum...))
+			if err != nil {
+				panic(err)
+			}
+			hook = c04NonzeroHook(coh, zeroAC, seed, base)
+		}
 		msg := []byte("C04 tamper matrix message")
 		ctxs := dealerContexts(quorum, NewRng(seed, base+1))
 		mk := func(rng io.Reader) (*vanilla.Scheme[*k256Point, *k256Scalar], error) {
@@ -352,7 +401,7 @@ func c04ScnLindell22(cfg, spec string, quorum []ID, quick int) c04Scn {
 				ps[id] = m
 			}
 			agg = safely(func() string {
-				l22, err := l22Shards(shards, quorum)
+				l22, err := l22Shards(orig, quorum) // the aggregator holds the ORIGINAL public material
 				if err != nil {
 					return classify(err)
 				}
@@ -384,11 +433,15 @@ func c04ScnLindell22(cfg, spec string, quorum []ID, quick int) c04Scn {
 			}
 		}
 		return &c04Res{net: n, agg: agg, out: func(ID) string { return out }}
-	}}
+	}
+	return scn
 }
 
 func c04ScnBoldyreva(cfg, spec string, quorum []ID, quick int) c04Scn {
-	return c04Scn{proto: "boldyreva", cfg: cfg, quick: quick, curve: "bls", run: func(seed int64, base uint64, hook Hook) *c04Res {
+	scn := c04Scn{proto: "boldyreva", cfg: cfg, quick: quick, curve: "bls", cohDevs: sortedIDs(quorum), cohDevsAll: sortedIDs(quorum)}
+	scn.run = func(seed int64, base uint64, hook Hook) *c04Res { return scn.runWith(seed, base, hook, nil) }
+	scn.runCoh = func(seed int64, base uint64, coh *c04Coh) *c04Res { return scn.runWith(seed, base, nil, coh) }
+	scn.runWith = func(seed int64, base uint64, hook Hook, coh *c04Coh) *c04Res {
 		ac := mustAccess(spec)
 		dealt := runTrustedDealer(cBLSG1, ac, NewRng(seed, base+2))
 		if dealt.Shards == nil {
@@ -396,7 +449,13 @@ func c04ScnBoldyreva(cfg, spec string, quorum []ID, quick int) c04Scn {
 		}
 		msg := []byte("C04 tamper matrix message")
 		ctxs := dealerContexts(quorum, NewRng(seed, base+1))
-		res := runBoldyrevaShort(dealt.Shards, quorum, ctxs, msg, bls.Basic, hook)
+		var res *BLSResult[g1, g1f, g2, g2f]
+		if coh != nil {
+			// the aggregator's public material comes from the dealer, not from a shard the deviator supplies
+			res = c04RunBoldyreva(dealt.Shards, c04SubstInput(cBLSG1, fBLS, ac, dealt.Shards, coh, seed, base), quorum, ctxs, msg, bls.Basic, hook)
+		} else {
+			res = runBoldyrevaShort(dealt.Shards, quorum, ctxs, msg, bls.Basic, hook)
+		}
 		agg := res.AggStatus
 		if agg == "" {
 			agg = "none"
@@ -427,23 +486,32 @@ func c04ScnBoldyreva(cfg, spec string, quorum []ID, quick int) c04Scn {
 				return "valid"
 			})
 		}}
-	}}
+	}
+	return scn
 }
 
 var _ = session.NewContext
 
 func (s c04Scn) rel(n int) c04Scn { s.quickRel = n; return s }
 
+// coh switches the coherent deviations of a scenario on (all kinds × all deviators, both tiers).
+func (s c04Scn) coh(kinds ...string) c04Scn { s.cohKinds = kinds; return s }
+
 // c04Scenarios. Ideal structures (one MSP row per party): `a` = 2-of-3 over IDs 1,2,3, `b` = 3-of-3 over
 // sparse IDs. NON-IDEAL structures (a party owns several MSP rows, so shares, partial signatures and
 // sub-shares are vectors): `n` = CNF with maximal unqualified sets {1},{2},{3} (2-of-3, two rows per
 // party), `ns` = the same over sparse IDs 2,5,9, `m` = CNF {1,2},{1,3},{4} over 4 parties (party 1 owns
 // one row, the others two; no holder is in every maximal unqualified set), `e` = the threshold-gate
-// tree or(and(1,2),and(2,3),and(1,3)). Quorums: minimal (`…2`) and non-minimal (`…3`).
+// tree or(and(1,2),and(2,3),and(1,3)). Quorums: minimal (`…2`) and non-minimal (`…3`). Redistribution:
+// refresh (same holders), grow (newcomer 4 WITHOUT a trusted anchor), grow-anchored (newcomer 4 trusting
+// previous holder 2), recover (holder 1 lost its share: previous holders 2,3, newcomer 1 without anchor).
+// `.coh(…)`: the coherent deviations of c04_coh.go, every kind × every deviator.
 func c04Scenarios(thorough bool) []c04Scn {
 	a, b := "th:2:1,2,3", "th:3:2,5,9"
 	ia, ib := []ID{1, 2, 3}, []ID{2, 5, 9}
 	n, ns, m, e := "cnf:1|2|3", "cnf:2|5|9", "cnf:1,2|1,3|4", "bool:or(and(1,2),and(2,3),and(1,3))"
+	// coherent deviations of a previous holder in redistribution (c04_coh.go)
+	rk := []string{"input0", "input", "nonzero", "redeal", "claim", "redeal+claim"}
 	s := []c04Scn{
 		c04ScnSession("a", ia, 90),
 		c04ScnSession("b", ib, 30),
@@ -454,25 +522,27 @@ func c04Scenarios(thorough bool) []c04Scn {
 		c04ScnDKG("canetti", "a", a, 40).rel(6),
 		c04ScnDKG("canetti", "b", b, 15),
 		c04ScnDKG("canetti", "ns", ns, 40).rel(30),
-		c04ScnHJKY("a", a, 25).rel(4),
+		c04ScnHJKY("a", a, 25).rel(4).coh("nonzero"),
 		c04ScnHJKY("b", b, 10),
-		c04ScnHJKY("n", n, 25).rel(20),
+		c04ScnHJKY("n", n, 25).rel(20).coh("nonzero"),
 		c04ScnRedistribute("refresh", a, ia, a, 0, 40).rel(6),
-		c04ScnRedistribute("grow", a, ia, "th:2:1,2,3,4", 0, 25),
+		c04ScnRedistribute("grow", a, ia, "th:2:1,2,3,4", 0, 25).coh(rk...),
+		c04ScnRedistribute("grow-anchored", a, ia, "th:2:1,2,3,4", 2, 10).coh(rk...),
+		c04ScnRedistribute("recover", a, []ID{2, 3}, a, 0, 10).coh(rk...),
 		c04ScnRedistribute("recover-b", b, ib, "th:3:2,5,9", 0, 15),
-		c04ScnRedistribute("refresh-n", n, ia, n, 0, 35).rel(30),
+		c04ScnRedistribute("refresh-n", n, ia, n, 0, 35).rel(30).coh(rk...),
 		c04ScnRedistribute("to-e", a, ia, e, 0, 15).rel(10),
 		c04ScnLindell22("a2", a, []ID{1, 3}, 25).rel(4),
-		c04ScnLindell22("a3", a, ia, 30).rel(4),
+		c04ScnLindell22("a3", a, ia, 30).rel(4).coh("nonzero", "input0", "input"),
 		c04ScnLindell22("b", b, ib, 15),
-		c04ScnLindell22("n2", n, []ID{1, 2}, 15).rel(10),
+		c04ScnLindell22("n2", n, []ID{1, 2}, 15).rel(10).coh("nonzero", "input0", "input"),
 		c04ScnLindell22("ns3", ns, ib, 25).rel(20),
-		c04ScnDKLs23("softspoken", "a2", a, []ID{1, 3}, 40, 400).rel(8),
+		c04ScnDKLs23("softspoken", "a2", a, []ID{1, 3}, 40, 400).rel(8).coh("input0", "input"),
 		c04ScnDKLs23("softspoken", "a3", a, ia, 10, 400),
 		c04ScnDKLs23("softspoken", "n2", n, []ID{2, 3}, 12, 300).rel(4),
-		c04ScnBoldyreva("a2", a, []ID{1, 2}, 6),
+		c04ScnBoldyreva("a2", a, []ID{1, 2}, 6).coh("input0", "input"),
 		c04ScnBoldyreva("a3", a, ia, 5),
-		c04ScnBoldyreva("n2", n, []ID{1, 2}, 8).rel(6),
+		c04ScnBoldyreva("n2", n, []ID{1, 2}, 8).rel(6).coh("input0", "input"),
 		c04ScnBoldyreva("ns3", ns, ib, 5).rel(9),
 	}
 	if thorough {
